@@ -193,7 +193,7 @@ Proof.
   intros [I S D] W Sr E.
   pose proof (step_spec s o s' u I W E) as [I' _].
   constructor; [exact I'| |].
-  - destruct o as [e missing|e c|e c|e ev fail|e force allow keep tfail| |ids|t|fids];
+  - destruct o as [e missing|e c|e c|e ev fail|e force allow keep tfail| |ids|t|fids|];
       cbn [step serial_op] in *; try discriminate.
     + destruct (N.eqb (c_fail c) 1).
       { unfold snap in E. injection E as <- <-. exact S. }
@@ -209,7 +209,8 @@ Proof.
     + destruct (kill_tasks ids (s_roster s)). injection E as <- <-. exact S.
     + injection E as <- <-. exact S.
     + injection E as <- <-. exact S.
-  - destruct o as [e missing|e c|e c|e ev fail|e force allow keep tfail| |ids|t|fids];
+    + injection E as <- <-. exact S.
+  - destruct o as [e missing|e c|e c|e ev fail|e force allow keep tfail| |ids|t|fids|];
       cbn [step serial_op wf_op] in *; try discriminate.
     + apply andb_true_iff in W. destruct W as [_ Wd]. apply nodupb_N in Wd.
       destruct (N.eqb (c_fail c) 1).
@@ -226,6 +227,7 @@ Proof.
     + apply destroy_good in E. destruct E as [_ [B _]]. eapply lmoves_dets; eauto.
     + destruct (cleanup (s_roster s)). injection E as <- <-. exact D.
     + destruct (kill_tasks ids (s_roster s)). injection E as <- <-. exact D.
+    + injection E as <- <-. exact D.
     + injection E as <- <-. exact D.
     + injection E as <- <-. exact D.
 Qed.
@@ -490,6 +492,24 @@ Proof.
   subst n2. reflexivity.
 Qed.
 
+(* the order fact read off the source (gen/Gen_TdOrder.v): pending calls are cancelled after the
+   leave_<state> hooks, the last point of TeardownEnvironment where a pending call can be started *)
+Lemma td_cancel_after_leave : before 4 1 = false.
+Proof. vm_compute. reflexivity. Qed.
+
+Lemma teardown_left force e s : td_ok (teardown force e s) = true -> td_left (teardown force e s) = 0.
+Proof.
+  unfold teardown. destruct (find_env e (s_envs s)) as [x|]; cbn [td_ok td_left]; [|discriminate].
+  destruct (N.eqb (e_state x) ES_DONE); cbn [td_ok td_left]; [discriminate|].
+  destruct (negb force && negb (N.eqb (e_state x) ES_STANDBY || N.eqb (e_state x) ES_DEPLOYED)); cbn [td_ok td_left];
+    [discriminate|].
+  rewrite td_cancel_after_leave.
+  destruct (release e _ (s_roster s)) as [r1 n1].
+  destruct (negb (N.eqb n1 0)); cbn [td_ok td_left]; [discriminate|].
+  destruct (release e _ r1) as [r2 n2].
+  destruct (negb (N.eqb n2 0)); cbn [td_ok td_left]; [discriminate|reflexivity].
+Qed.
+
 Lemma teardown_cases force e s :
   inv s ->
   (td_ok (teardown force e s) = false /\ td_st (teardown force e s) = s) \/
@@ -521,23 +541,24 @@ Proof.
   set (t1 := teardown force e s).
   set (t := if td_ok t1 || force then t1 else _).
   (* the teardown that counts ran on [s] itself *)
-  assert (T : td_ok t = true -> exists f, td_ok (teardown f e s) = true /\ td_st t = td_st (teardown f e s)).
+  assert (T : td_ok t = true -> exists f, td_ok (teardown f e s) = true /\ td_st t = td_st (teardown f e s) /\
+                                          td_left t = td_left (teardown f e s)).
   { subst t. destruct (td_ok t1) eqn:O1; cbn [orb].
     - intros _. exists force. auto.
     - destruct force.
       + rewrite O1. discriminate.
-      + cbn [td_ok td_st]. intro O2. exists true.
+      + cbn [td_ok td_st td_left]. intro O2. exists true.
         destruct (teardown_cases false e s I) as [[_ Hs]|Hok]; [|fold t1 in Hok; congruence].
         fold t1 in Hs. rewrite Hs in *. auto. }
   destruct (td_ok t) eqn:Ot; cbn [negb].
   2:{ intros H Hrc. injection H as <- <-. discriminate. }
-  destruct (T eq_refl) as [f [Hok Hst]].
+  destruct (T eq_refl) as [f [Hok [Hst Hleft]]].
   destruct (teardown_ok_shape f e s Hok) as [x1 [Ef _]].
   destruct (Hx x1 Ef) as [X1 X2].
   destruct (teardown_releases f e s x1 I Ef Hok) as [R1 [R2 [R3 [R4 R5]]]].
   rewrite <- Hst in *.
-  assert (Pend : match find_env e (s_envs (td_st t)) with Some x' => e_pend x' | None => 0 end = 0).
-  { rewrite R1, find_env_remove. reflexivity. }
+  assert (Pend : match find_env e (s_envs (td_st t)) with Some x' => e_pend x' | None => td_left t end = 0).
+  { rewrite R1, find_env_remove, Hleft. apply teardown_left, Hok. }
   rewrite Pend.
   destruct keep.
   { intros H _. injection H as <- <-. cbn [o_pend]. repeat split; auto. discriminate. }
@@ -567,78 +588,59 @@ Proof. unfold transition. intro H. injection H as <- _ _. apply command_same. Qe
 
 (* every path through DestroyEnvironment that reports success ends in doTeardownAndCleanup,
    after transitions that change neither owners nor statuses *)
-Lemma destroy_shape e force allow keep tfail s s' u x :
-  find_env e (s_envs s) = Some x -> destroy e force allow keep tfail s = (s', u) -> o_rc u = 0 ->
+Definition dshape (e : N) (keep : bool) (x : env) (s s' : st) (u : out) : Prop :=
   exists s1 f k o2 K,
     map own3 (s_roster s1) = map own3 (s_roster s) /\ good e s s1 K /\
     dtc f k x s1 = (s', o2) /\ o_rc o2 = 0 /\ o_pend u = o_pend o2 /\
     (forall id, In id (o_kills o2) -> In id (o_kills u)) /\ (keep = false -> k = false).
+
+Lemma destroy_tail_shape e x keep s s1 o1 go_on tf K s' u :
+  e_id x = e -> map own3 (s_roster s1) = map own3 (s_roster s) -> good e s s1 K ->
+  destroy_tail e x keep s1 o1 go_on tf = (s', u) -> o_rc u = 0 -> dshape e keep x s s' u.
 Proof.
-  intros Ef. unfold destroy. rewrite Ef.
-  destruct force.
-  { intros H Hrc. exists s, true, keep, u, []. split; [reflexivity|]. split; [apply good_refl|]. repeat split; auto. }
+  intros Ex Hs G1. unfold destroy_tail.
   assert (Fin : forall s1 o1 f k K,
             map own3 (s_roster s1) = map own3 (s_roster s) -> good e s s1 K -> (keep = false -> k = false) ->
             (let '(s2, o2) := dtc f k x s1 in (s2, out_seq o1 o2)) = (s', u) -> o_rc u = 0 ->
-            exists s1 f k o2 K,
-              map own3 (s_roster s1) = map own3 (s_roster s) /\ good e s s1 K /\
-              dtc f k x s1 = (s', o2) /\ o_rc o2 = 0 /\ o_pend u = o_pend o2 /\
-              (forall id, In id (o_kills o2) -> In id (o_kills u)) /\ (keep = false -> k = false)).
-  { intros s1 o1 f k K Hs G Hk H Hrc. destruct (dtc f k x s1) as [s2 o2] eqn:Ed. injection H as <- <-.
-    exists s1, f, k, o2, K. cbn [out_seq o_rc o_pend o_kills] in *. split; [exact Hs|]. split; [exact G|].
+            dshape e keep x s s' u).
+  { intros s2 o2' f k K2 Hs2 G Hk H Hrc. destruct (dtc f k x s2) as [s3 o3] eqn:Ed. injection H as <- <-.
+    exists s2, f, k, o3, K2. cbn [out_seq o_rc o_pend o_kills] in *. split; [exact Hs2|]. split; [exact G|].
     repeat split; auto. intros id Hid. apply in_or_app. right. exact Hid. }
-  assert (P : forall s1 o1 (go_on tf : bool) K,
-             map own3 (s_roster s1) = map own3 (s_roster s) -> good e s s1 K ->
-             (if negb go_on
-              then let '(s2, o2) := dtc true false x s1 in (s2, out_seq o1 o2)
-              else match find_env e (s_envs s1) with
-                   | None => (s1, out_rc 1)
-                   | Some x1 =>
-                       let st1 := e_state x1 in
-                       if negb (N.eqb st1 ES_CONFIGURED || N.eqb st1 ES_DEPLOYED || N.eqb st1 ES_STANDBY)
-                       then let '(s2, o2) := dtc true false x s1 in (s2, out_seq o1 o2)
-                       else if N.eqb st1 ES_CONFIGURED
-                            then let '(r', targets, ok) := transition x1 TS_STANDBY tf (s_roster s1) in
-                                 let o1' := out_seq o1 (mkOut 0 [] targets [] [] 0 []) in
-                                 if ok
-                                 then let s2 := mkSt (upd_env e (set_estate ES_DEPLOYED) (s_envs s1)) r' (s_snaps s1) in
-                                      let '(s3, o3) := dtc false keep x s2 in (s3, out_seq o1' o3)
-                                 else let '(s3, o3) := dtc true false x (with_roster s1 r') in (s3, out_seq o1' o3)
-                            else let '(s3, o3) := dtc false keep x s1 in (s3, out_seq o1 o3)
-                   end) = (s', u) -> o_rc u = 0 ->
-             exists s1 f k o2 K,
-               map own3 (s_roster s1) = map own3 (s_roster s) /\ good e s s1 K /\
-               dtc f k x s1 = (s', o2) /\ o_rc o2 = 0 /\ o_pend u = o_pend o2 /\
-               (forall id, In id (o_kills o2) -> In id (o_kills u)) /\ (keep = false -> k = false)).
-  { intros s1 o1 go_on tf K Hs G1.
-    destruct (negb go_on).
-    { apply (Fin s1 o1 true false K); auto. }
-    destruct (find_env e (s_envs s1)) as [x1|] eqn:Ef1.
-    2:{ intros H Hrc. injection H as <- <-. discriminate. }
-    pose proof (find_env_id _ _ _ Ef1) as Ex1. cbv zeta.
-    destruct (negb (N.eqb (e_state x1) ES_CONFIGURED || N.eqb (e_state x1) ES_DEPLOYED || N.eqb (e_state x1) ES_STANDBY)).
-    { apply (Fin s1 o1 true false K); auto. }
-    destruct (N.eqb (e_state x1) ES_CONFIGURED).
-    2:{ apply (Fin s1 o1 false keep K); auto. }
-    destruct (transition x1 TS_STANDBY tf (s_roster s1)) as [[r' tg] ok] eqn:Et.
-    pose proof (transition_same _ _ _ _ _ _ _ Et) as Hsame.
-    apply transition_spec in Et. rewrite Ex1 in Et. destruct Et as [Em Etg].
-    destruct ok.
-    - apply (Fin _ _ false keep (K ++ tg)); auto; [cbn [s_roster]; congruence|].
-      eapply good_trans; [exact G1|]. apply good_mk; auto. constructor; [constructor|apply keeps_estate].
-    - apply (Fin _ _ true false (K ++ tg)); auto; [unfold with_roster; cbn [s_roster]; congruence|].
-      eapply good_trans; [exact G1|]. unfold with_roster. apply good_mk; auto. constructor. }
-  pose proof (find_env_id _ _ _ Ef) as Ex.
+  destruct (negb go_on).
+  { apply (Fin s1 o1 true false K); auto. }
+  destruct (find_env e (s_envs s1)) as [x1|] eqn:Ef1.
+  2:{ intros H Hrc. injection H as <- <-. discriminate. }
+  pose proof (find_env_id _ _ _ Ef1) as Ex1. cbv zeta.
+  destruct (negb (N.eqb (e_state x1) ES_CONFIGURED || N.eqb (e_state x1) ES_DEPLOYED || N.eqb (e_state x1) ES_STANDBY)).
+  { apply (Fin s1 o1 true false K); auto. }
+  destruct (N.eqb (e_state x1) ES_CONFIGURED).
+  2:{ apply (Fin s1 o1 false keep K); auto. }
+  destruct (transition x1 TS_STANDBY tf (s_roster s1)) as [[r' tg] ok] eqn:Et.
+  pose proof (transition_same _ _ _ _ _ _ _ Et) as Hsame.
+  apply transition_spec in Et. rewrite Ex1 in Et. destruct Et as [Em Etg].
+  destruct ok.
+  - apply (Fin _ _ false keep (K ++ tg)); auto; [cbn [s_roster]; congruence|].
+    eapply good_trans; [exact G1|]. apply good_mk; auto.
+    constructor; [constructor|]. apply keeps_comp; [apply keeps_estate|apply keeps_leave].
+  - apply (Fin _ _ true false (K ++ tg)); auto; [cbn [s_roster]; congruence|].
+    eapply good_trans; [exact G1|]. apply good_mk; auto. constructor; [constructor|apply keeps_leave].
+Qed.
+
+Lemma destroy_shape e force allow keep tfail s s' u x :
+  find_env e (s_envs s) = Some x -> destroy e force allow keep tfail s = (s', u) -> o_rc u = 0 ->
+  dshape e keep x s s' u.
+Proof.
+  intros Ef. unfold destroy. rewrite Ef. pose proof (find_env_id _ _ _ Ef) as Ex.
+  destruct force.
+  { intros H Hrc. exists s, true, keep, u, []. split; [reflexivity|]. split; [apply good_refl|]. repeat split; auto. }
   destruct (allow && N.eqb (e_state x) ES_RUNNING).
   - destruct (transition x TS_CONFIGURED tfail (s_roster s)) as [[r' tg] ok] eqn:Et.
     pose proof (transition_same _ _ _ _ _ _ _ Et) as Hsame.
     apply transition_spec in Et. rewrite Ex in Et. destruct Et as [Em Etg].
-    destruct ok.
-    + apply (P _ _ _ _ tg); [cbn [s_roster]; exact Hsame|]. apply good_mk; auto.
-      constructor; [constructor|apply keeps_estate].
-    + apply (P _ _ _ _ tg); [unfold with_roster; cbn [s_roster]; exact Hsame|].
-      unfold with_roster. apply good_mk; auto. constructor.
-  - apply (P _ _ _ _ []); [reflexivity|apply good_refl].
+    destruct ok; apply (destroy_tail_shape e x keep s _ _ _ _ tg); auto; apply good_mk; auto.
+    + constructor; [constructor|]. apply keeps_comp; [apply keeps_estate|apply keeps_leave].
+    + constructor; [constructor|apply keeps_leave].
+  - apply (destroy_tail_shape e x keep s _ _ _ _ []); auto. apply good_refl.
 Qed.
 
 Lemma remove_upd e f l : keeps_shape f -> remove_env e (upd_env e f l) = remove_env e l.
@@ -799,7 +801,7 @@ Qed.
 Lemma create_tail_nothing x sm cmds l s' u :
   inv sm -> find_env (e_id x) (s_envs sm) = Some x -> e_state x <> ES_DONE ->
   create_tail x sm cmds l = (s', u) ->
-  nothing_left (e_id x) s' /\ o_rc u = 1 /\ o_launch u = l /\
+  nothing_left (e_id x) s' /\ (o_rc u = 1 /\ o_pend u = 0) /\ o_launch u = l /\
   (forall t, In t (s_roster sm) -> t_owner t = Some (e_id x) -> In (t_id t) (o_kills u)).
 Proof.
   intros I Ef Hd. unfold create_tail. set (e := e_id x) in *.
@@ -807,7 +809,8 @@ Proof.
   destruct (teardown_releases true e sm x I Ef Hok) as [R1 [R2 [R3 [R4 R5]]]].
   set (t := teardown true e sm) in *.
   destruct (kill_tasks (bound_tids x) (s_roster (td_st t))) as [r' k] eqn:Ek.
-  intro H; injection H as <- <-. cbn [o_rc o_launch o_kills]. split; [|split; [reflexivity|split; [reflexivity|]]].
+  intro H; injection H as <- <-. cbn [o_rc o_launch o_kills o_pend].
+  split; [|split; [split; [reflexivity|apply teardown_left, Hok]|split; [reflexivity|]]].
   - unfold with_roster. rewrite R1. apply nothing_left_removed.
     intros t' Hin. apply R3. eapply kill_sub. rewrite Ek. exact Hin.
   - intros t0 Hin Ho.
@@ -825,7 +828,7 @@ Qed.
 Lemma finish_nothing e c s s' u ad :
   inv s -> assocN e (s_snaps s) = Some ad ->
   finish e c s = (s', u) -> o_rc u = 1 ->
-  nothing_left e s' /\ launched_killed e c u.
+  (nothing_left e s' /\ launched_killed e c u) /\ o_pend u = 0.
 Proof.
   intros I Ea. unfold finish. rewrite Ea. pose proof (assocN_In _ _ _ Ea) as Hp.
   assert (Rfree : forall t, In t (s_roster s) -> fst (t_id t) <> e).
@@ -833,8 +836,8 @@ Proof.
   assert (Efree : forall y, In y (s_envs s) -> e_id y <> e).
   { intros y Hy. apply (inv_snap_e s I (e, ad) y Hp Hy). }
   set (s0 := mkSt (s_envs s) (s_roster s) (remove_snap e (s_snaps s))).
-  assert (N0 : nothing_left e s0 /\ launched_killed e c (out_rc 1)).
-  { split; [|intros id []]. repeat split; cbn [s0 s_envs s_roster]; auto.
+  assert (N0 : (nothing_left e s0 /\ launched_killed e c (out_rc 1)) /\ o_pend (out_rc 1) = 0).
+  { split; [|reflexivity]. split; [|intros id []]. repeat split; cbn [s0 s_envs s_roster]; auto.
     - apply find_env_none_intro, Efree.
     - intros t Ht. destruct (owner_is e t) eqn:Eo; [|reflexivity]. apply owner_is_true in Eo.
       exfalso. apply (Rfree t Ht). eapply inv_owner; eauto. }
@@ -844,14 +847,14 @@ Proof.
   { intros H _. injection H as <- <-. exact N0. }
   set (x0 := mkEnv e (c_dets c) ES_STANDBY (c_roles c) false 0).
   destruct (N.eqb (c_fail c) 4).
-  { set (xe := set_estate ES_ERROR x0). intros H _.
+  { set (xe := set_estate ES_ERROR (leave_upd ES_STANDBY (leave_upd ES_STANDBY x0))). intros H _.
     assert (Im : inv (with_envs s0 (s_envs s0 ++ [xe]))).
     { pose proof (inv_launch s e ad xe [] I Hp eq_refl) as L. rewrite app_nil_r in L.
       apply L; [constructor|intros t []]. }
-    destruct (create_tail_nothing xe _ [] [] s' u Im) as [A [_ [B _]]]; auto.
+    destruct (create_tail_nothing xe _ [] [] s' u Im) as [A [[_ P0] [B _]]]; auto.
     - cbn [with_envs s_envs s0]. apply find_env_app_new; auto.
     - cbn. discriminate.
-    - split; [exact A|]. intros id Hl. rewrite B in Hl. contradiction. }
+    - split; [|exact P0]. split; [exact A|]. intros id Hl. rewrite B in Hl. contradiction. }
   set (x1 := set_bound x0).
   set (new := map (launch_task e) (task_iroles x1)).
   assert (Hids : map t_id new = bound_tids x1).
@@ -872,28 +875,28 @@ Proof.
                  map own3 rm = map own3 (s_roster s ++ new) ->
                  create_tail xe (mkSt (s_envs s0 ++ [xe]) rm (s_snaps s0)) cmds
                              (map (fun ir => tid_of e (fst ir)) (task_iroles x1)) = (s', u) ->
-                 nothing_left e s' /\ launched_killed e c u).
+                 (nothing_left e s' /\ launched_killed e c u) /\ o_pend u = 0).
   { intros xe rm cmds X1 X2 X3 X4 Im Hsame H.
-    destruct (create_tail_nothing xe _ cmds (map (fun ir => tid_of e (fst ir)) (task_iroles x1)) s' u Im) as [A [_ [B C]]]; auto.
+    destruct (create_tail_nothing xe _ cmds (map (fun ir => tid_of e (fst ir)) (task_iroles x1)) s' u Im) as [A [[_ P0] [B C]]]; auto.
     - cbn [s_envs s0]. rewrite X1. apply find_env_app_new; auto.
     - rewrite X4. discriminate.
-    - rewrite X1 in *. split; [exact A|]. intros id Hl. rewrite B in Hl.
+    - rewrite X1 in *. split; [|exact P0]. split; [exact A|]. intros id Hl. rewrite B in Hl.
       destruct (Hrun id Hl) as [t [T1 [T2 T3]]].
       destruct (same_In (s_roster s ++ new) rm t (eq_sym Hsame)) as [t' [U1 [U2 [U3 U4]]]].
       { apply in_or_app. right. exact T1. }
       rewrite <- T2, <- U2. apply C; cbn [s_roster]; congruence. }
   destruct (existsb _ (c_roles c) || N.eqb (c_fail c) 5).
-  { intros H _. eapply (Tail (set_estate ES_ERROR x1)); [| | | | | |exact H]; try reflexivity.
-    apply (IL (set_estate ES_ERROR x1)); reflexivity. }
+  { intros H _. eapply (Tail (set_estate ES_ERROR (leave_upd ES_STANDBY (leave_upd ES_STANDBY x1)))); [| | | | | |exact H]; try reflexivity.
+    apply (IL (set_estate ES_ERROR (leave_upd ES_STANDBY (leave_upd ES_STANDBY x1)))); reflexivity. }
   set (r1 := s_roster s0 ++ new).
   set (targets := active_owned_in e (bound_tids x1) r1).
   set (refuse := map _ (filter _ (task_iroles x1))).
   set (r2 := command e targets refuse TS_CONFIGURED r1).
-  set (x2 := set_pend (pend_roles x1) x1).
+  set (x2 := add_pend (pend_roles x1) (leave_upd ES_DEPLOYED (leave_upd ES_STANDBY x1))).
   destruct (existsb _ (c_roles c)).
-  { intros H _. eapply (Tail (set_estate ES_ERROR x2) r2); [| | | | | |exact H]; try reflexivity.
-    - eapply good_inv; [apply (IL (set_estate ES_ERROR x2)); reflexivity|].
-      apply (good_mk e (mkSt (s_envs s ++ [set_estate ES_ERROR x2]) (s_roster s ++ new) (remove_snap e (s_snaps s))) r2 _ []).
+  { intros H _. eapply (Tail (set_estate ES_ERROR (leave_upd ES_DEPLOYED x2)) r2); [| | | | | |exact H]; try reflexivity.
+    - eapply good_inv; [apply (IL (set_estate ES_ERROR (leave_upd ES_DEPLOYED x2))); reflexivity|].
+      apply (good_mk e (mkSt (s_envs s ++ [set_estate ES_ERROR (leave_upd ES_DEPLOYED x2)]) (s_roster s ++ new) (remove_snap e (s_snaps s))) r2 _ []).
       + constructor. constructor.
       + constructor.
       + intros k [].
@@ -904,13 +907,13 @@ Qed.
 Lemma create_nothing_behind s e c s' u :
   reachable s -> wf_op s (OCreate e c) = true ->
   step s (OCreate e c) = (s', u) -> o_rc u = 1 ->
-  nothing_left e s' /\ launched_killed e c u.
+  (nothing_left e s' /\ launched_killed e c u) /\ o_pend u = 0.
 Proof.
   intros R W E Hrc. pose proof (reachable_inv s R) as I.
   cbn [wf_op] in W. apply andb_true_iff in W. destruct W as [W _]. apply negb_true_iff in W.
   pose proof (usedb_false s e W) as [U1 [U2 U3]].
   cbn [step] in E. destruct (N.eqb (c_fail c) 1).
-  { unfold snap in E. injection E as <- <-. split; [|intros id []]. repeat split; auto.
+  { unfold snap in E. injection E as <- <-. split; [|reflexivity]. split; [|intros id []]. repeat split; auto.
     - apply find_env_none_intro, U1.
     - intros t Ht. destruct (owner_is e t) eqn:Eo; [|reflexivity]. apply owner_is_true in Eo.
       exfalso. apply (U2 t Ht). eapply inv_owner; eauto. }
@@ -921,7 +924,7 @@ Proof.
   { unfold snap in Es. destruct (cleanup (s_roster s)). injection Es as <- _. cbn [s_snaps assocN].
     rewrite N.eqb_refl. reflexivity. }
   cbn [out_seq o_rc] in Hrc.
-  destruct (finish_nothing e c s1 s2 o2 _ I1 Ea Ef Hrc) as [A B]. split; [exact A|].
+  destruct (finish_nothing e c s1 s2 o2 _ I1 Ea Ef Hrc) as [[A B] P0]. split; [|exact P0]. split; [exact A|].
   intros id Hl. cbn [out_seq o_launch o_kills] in *. apply in_or_app. right.
   apply B; auto. apply in_app_or in Hl. destruct Hl as [Hl|Hl]; [|exact Hl].
   unfold snap in Es. destruct (cleanup (s_roster s)). injection Es as _ <-. contradiction.
@@ -930,7 +933,7 @@ Qed.
 Lemma finish_nothing_behind s e c s' u :
   reachable s -> assocN e (s_snaps s) <> None ->
   step s (OFinish e c) = (s', u) -> o_rc u = 1 ->
-  nothing_left e s' /\ launched_killed e c u.
+  (nothing_left e s' /\ launched_killed e c u) /\ o_pend u = 0.
 Proof.
   intros R Ha E Hrc. pose proof (reachable_inv s R) as I.
   destruct (assocN e (s_snaps s)) as [ad|] eqn:Ea; [|contradiction].
@@ -939,6 +942,14 @@ Qed.
 
 Lemma failed_creation_leaves_nothing_holds : failed_creation_leaves_nothing.
 Proof. intros s e c s' u R W E Hrc. eapply create_nothing_behind; eauto. Qed.
+
+Lemma failed_creation_cancels_calls s e c s' u :
+  reachable s -> wf_op s (OCreate e c) = true -> step s (OCreate e c) = (s', u) -> o_rc u = 1 -> o_pend u = 0.
+Proof. intros R W E Hrc. eapply create_nothing_behind; eauto. Qed.
+
+(* a status update from the master changes nothing: no lock, no owner, no listing entry *)
+Lemma master_update_changes_nothing s : step s ORecon = (s, out_rc 0).
+Proof. cbn [step]. rewrite recon_tasks_id. destruct s; reflexivity. Qed.
 
 (* ---------------- the witnesses of the former refutations, now regression examples *)
 Definition mw_spec : cspec :=
